@@ -34,6 +34,9 @@ def Err.isMergeError : Err → Bool
 /-- `MosRoMgrWarning` subclasses -/
 inductive Warn where
   | storyNotFound | itemNotFound | duplicateStory | nonStrict
+  /-- any other `MosRoMgrWarning` category: never produced by the model; an implementation that emits one is observed
+      with it (and so differs from every specification that lists the documented categories) -/
+  | other
 deriving DecidableEq, Repr, Inhabited
 
 /-- the 25 classes `MosFile._classify` / `ElementAction._classify` can return -/
